@@ -1,6 +1,6 @@
 /*@unit {
  'kind': 'proof', 'mode': 'plain', 'solver': 'kissat',
- 'functions': ['slist_init', 'slist_empty', 'slist_add', 'slist_pop_first'],
+ 'functions': ['slist_init', 'slist_empty', 'slist_add', 'slist_pop_first', 'SLIST_HEAD', 'SLIST_HEAD_INIT'],
  'clauses': 'slist, lists of any length (every link outside the footprint is an arbitrary, possibly invalid pointer): OP 0 slist_init: head->next==head, slist_empty; OP 1 slist_add(link, head): head->next==link, link->next==old head->next, only these two fields change, accesses confined to link and head; OP 2 slist_pop_first(head): NULL and nothing changes iff the list is empty, otherwise returns the old first node F, head->next==old F->next, only head.next changes, accesses confined to head and F; afterwards no observed node of the list points at F; OP 3 slist_empty(head) iff head->next==head, pure',
  'params': {'OP': [0, 1, 2, 3]},
  'assumptions': ['slist_add: link is not a member of a list (no list node points at it)'],
@@ -50,6 +50,8 @@ void harness(void)
     int e = slist_empty(S_(h));
     __CPROVER_assert((e != 0) == (c01s_nx[h] == h), "slist_empty iff head->next == head");
     c01s_frame(0u);
+    SLIST_HEAD(hd);                                /* static initialiser = slist_init */
+    __CPROVER_assert(hd.next == &hd && slist_empty(&hd), "SLIST_HEAD / SLIST_HEAD_INIT give an empty head");
 #endif
     CANARY("sl_local end reachable");
 }
